@@ -1,15 +1,11 @@
 (* C28: the witness histories of Model/BTreeWitness.v evaluated on the model of the repaired code (vm_compute):
-   the seven former witnesses are accepted by the ordered-map specification, the zero-separator witness
-   reaches class F_ZSEP and is rejected. *)
+   all nine former witnesses are regular and accepted by the ordered-map specification. *)
 From Coq Require Import ZArith List Bool.
 From TV Require Import Lib.MachInt Gen.Varint Model.BTree Model.BTreeSpec Model.BTreeWitness.
 Import ListNotations.
 Open Scope Z_scope.
 
-Lemma former_witnesses_accepted_l :
+Lemma former_classes_repaired_l :
   accepted w_fwd /\ accepted w_seek /\ accepted w_bwd /\ accepted w_hint /\ accepted w_upd /\ accepted w_leaffull
-  /\ accepted w_sepdup /\ accepted w_intfull.
+  /\ accepted w_sepdup /\ accepted w_intfull /\ accepted w_zsep.
 Proof. vm_compute. repeat split. Qed.
-
-Lemma zsep_refuted_l : refutes F_ZSEP w_zsep.
-Proof. vm_compute. split; reflexivity. Qed.
